@@ -248,8 +248,8 @@ def _bounded_edge(ctx, v, f, site, t):
     r = roles(ctx, v)
     if t.qualname == r.drain.qualname and not t.is_async:
         first = t.node.body[0] if not isinstance(t.node.body[0], ast.Expr) else t.node.body[1]
-        if isinstance(first, ast.If) and "_is_processing" in norm(first.test) and any(isinstance(x, ast.Return) for x in first.body):
-            return "re-entrant drain returns at the _is_processing test"
+        if isinstance(first, ast.If) and r.flag in norm(first.test) and any(isinstance(x, ast.Return) for x in first.body):
+            return f"re-entrant drain returns at the {r.flag} test"
     return None
 
 
